@@ -6,12 +6,13 @@ import AioslskVerif.Model.Obfs
 Transcription of `DataConnection._read_message` (connection.py:370-383), `_read` (325-367) and
 `_message_reader_loop` (295-323) over a byte stream that ends with EOF. The decoder is a
 parameter `decode : Bytes → Option μ` (`none` = `MessageDeserializationError`, the frame is dropped).
-Read time-outs are not part of this model (virtual time in the harness).
+The read time-out is modelled for one situation: nothing more arrives and the connection stays open
+(`readerSilent`).
 -/
 namespace AioslskVerif.Stream
 open AioslskVerif.Wire
 
-inductive Close | eof | readError
+inductive Close | eof | readError | timeout
 deriving DecidableEq, Repr
 
 inductive Event (μ : Type)
@@ -50,6 +51,28 @@ def readerAux {μ : Type} (obf : Bool) (decode : Bytes → Option μ) : Nat → 
 
 def reader {μ : Type} (obf : Bool) (decode : Bytes → Option μ) (s : Bytes) : List (Event μ) :=
   readerAux obf decode (s.length + 1) s
+
+/-- The reader loop on a stream after which **nothing more arrives and the connection stays open**:
+the read that cannot be completed (the next header on an idle connection, a truncated header, a
+body shorter than its header announces) runs into the read time-out — `_read`: `TimeoutError` →
+`disconnect(CloseReason.TIMEOUT)` (connection.py:369-371) — and the loop ends with the connection. -/
+def readerSilentAux {μ : Type} (obf : Bool) (decode : Bytes → Option μ) : Nat → Bytes → List (Event μ)
+  | 0, _ => [.closed .timeout]
+  | fuel + 1, s =>
+    if s.length < hdrSize obf then [.closed .timeout]                  -- waits for (the rest of) a header
+    else
+      let hdr := s.take (hdrSize obf)
+      let n := frameLen obf hdr
+      let rest := s.drop (hdrSize obf)
+      if rest.length < n then [.closed .timeout]                       -- waits for the rest of the body
+      else
+        let frame := hdr ++ rest.take n
+        match decode (plain obf frame) with
+        | some m => .deliver m :: readerSilentAux obf decode fuel (rest.drop n)
+        | none => readerSilentAux obf decode fuel (rest.drop n)
+
+def readerSilent {μ : Type} (obf : Bool) (decode : Bytes → Option μ) (s : Bytes) : List (Event μ) :=
+  readerSilentAux obf decode (s.length + 1) s
 
 /-! ### Accepted connections: the first frame (network.py `on_peer_accepted`) -/
 
